@@ -211,9 +211,27 @@ def _try(s, e, sorted_=True):
     return rec
 
 
+# a sorted `take 1` per group whose group key equals the FINAL projection, with a transform in between that uses another column: the sort decides which row survives
+_DT1_SETUP = "create table t(c text, a integer, b integer); insert into t values ('x', 1, 9), ('x', 5, 1), ('y', 2, 2), ('y', 8, 7), ('z', 3, 3);"
+_DT1_CASES = [("from t\ngroup {c} (sort {-a} | take 1)\nfilter b > 3\nselect {c}\nsort c\n", [("y",)]),
+              ("from t\ngroup {c} (sort {a} | take 1)\nfilter b > 3\nselect {c}\nsort c\n", [("x",)])]
+
+
+def _try_dt1(src, exp):
+    import replaylib
+    rec = {"obligation": "group_take.DT1", "input": src, "replay_kind": "dt1", "expected": repr(exp), "s": None, "e": None}
+    ok, sql = replaylib.compile_prql(src, "sql.sqlite")
+    if not ok:
+        rec.update(failing=True, observed=sql[:300])
+        return rec
+    ok2, rows = replaylib.sqlite_rows(_DT1_SETUP, sql)
+    rec.update(failing=(not ok2) or [tuple(r) for r in rows] != exp, observed=repr(rows)[:300], sql=sql)
+    return rec
+
+
 def sweep():
     vals = [None, 1, 2, 3]
-    return [_try(s, e, so) for s in vals for e in vals if not (s is None and e is None) for so in (True, False)]
+    return [_try(s, e, so) for s in vals for e in vals if not (s is None and e is None) for so in (True, False)] + [_try_dt1(*c) for c in _DT1_CASES]
 
 
 def replay(failure):
@@ -224,4 +242,7 @@ def replay(failure):
 
 
 def rerun(doc):
+    if doc.get("replay_kind") == "dt1":
+        import ast
+        return _try_dt1(doc["input"], ast.literal_eval(doc["expected"]))
     return _try(doc["s"], doc["e"], doc.get("sorted", True))
